@@ -624,7 +624,7 @@ fn main() {
     let seed = ctx.seed;
     let (nreq, positions, multi): (usize, Vec<usize>, usize) = match tier {
         Tier::Quick => (1, vec![0, 1, 2, 15, 31, 32, 47, 62, 63], 2),
-        Tier::Thorough => (8, (0..64).collect(), 16),
+        Tier::Thorough => (12, (0..64).collect(), 16),
     };
     let reqs = make_requests(seed, nreq);
     let probes = make_probes(seed, &reqs, &positions, multi);
